@@ -7,14 +7,30 @@ Open Scope Z_scope.
 Lemma sites_accounted_b : forallb site_accounted sites = true.
 Proof. vm_compute. reflexivity. Qed.
 
-Lemma sites_accounted : forall s, In s sites -> s_class s = 0 ->
-  exists m, In m modelled_sites /\ s_fn s = fst m /\ s_iter s = snd m.
+Lemma sites_accounted : forall s, In s sites -> s_class s <> 0.
 Proof.
-  intros s Hs Hc. pose proof sites_accounted_b as H. rewrite forallb_forall in H. specialize (H s Hs).
-  unfold site_accounted in H. rewrite Hc, Z.eqb_refl in H. cbn [negb orb] in H. unfold site_modelled in H.
-  apply existsb_exists in H as [m [Hm Hb]]. apply andb_true_iff in Hb as [H1 H2].
-  exists m. split; [exact Hm|]. split; apply text_eqb_eq; assumption.
+  intros s Hs. pose proof sites_accounted_b as H. rewrite forallb_forall in H. specialize (H s Hs).
+  unfold site_accounted in H. apply negb_true_iff in H. apply Z.eqb_neq. exact H.
 Qed.
+
+(* every iteration of a set in the source is either sorted or order-insensitive *)
+Lemma sites_sorted_or_insensitive_b : forallb (fun s => (s_class s =? 1) || (s_class s =? 2)) sites = true.
+Proof. vm_compute. reflexivity. Qed.
+
+Lemma sites_sorted_or_insensitive : forall s, In s sites -> s_class s = 1 \/ s_class s = 2.
+Proof.
+  intros s Hs. pose proof sites_sorted_or_insensitive_b as H. rewrite forallb_forall in H. specialize (H s Hs).
+  apply orb_true_iff in H as [H|H]; apply Z.eqb_eq in H; [left|right]; exact H.
+Qed.
+
+(* each of the four repaired loops is there, sorted: two `new_names` sites, two `promoted_set` sites *)
+Definition count_sorted (fn it : text) : nat :=
+  List.length (filter (fun s => text_eqb (s_fn s) fn && text_eqb (s_iter s) it && (s_class s =? 1)) sites).
+
+Lemma repaired_sites_counted :
+  count_sorted (txt "_promote_branch_decls"%string) (txt "new_names"%string) = 2%nat /\
+  count_sorted (txt "_parse_simple_lines"%string) (txt "promoted_set"%string) = 2%nat.
+Proof. split; vm_compute; reflexivity. Qed.
 
 Lemma no_module_state_b : forallb mstate_accounted module_state = true.
 Proof. vm_compute. reflexivity. Qed.
